@@ -14,7 +14,8 @@ Theorem C06_truthy_table : forall iz : bool,
   (forall m, is_truthy iz (JObj m) = true <-> m <> []) /\
   (forall n, is_truthy iz (JNum (PosInt n)) = true <-> (iz = true \/ n <> 0)) /\
   (forall z, is_truthy iz (JNum (NegInt z)) = true <-> (iz = true \/ z <> 0%Z)) /\
-  (forall b, is_truthy iz (JNum (Float b)) = if iz then negb (f_is_nan b) else f_is_normal b).
+  (forall b, is_truthy iz (JNum (Float b)) =
+     if iz then negb (f_is_nan b) else negb (f_is_zero b) && negb (f_is_nan b)).
 Proof. exact truthy_table. Qed.
 Print Assumptions C06_truthy_table.
 
@@ -34,7 +35,7 @@ Print Assumptions C06_truthy_nonnumbers.
 Theorem C06_truthy_numbers_default :
   (forall n, is_truthy false (JNum (PosInt n)) = true <-> n <> 0) /\
   (forall z, is_truthy false (JNum (NegInt z)) = true <-> z <> 0%Z) /\
-  (forall b, is_truthy false (JNum (Float b)) = f_is_normal b).
+  (forall b, is_truthy false (JNum (Float b)) = negb (f_is_zero b) && negb (f_is_nan b)).
 Proof. exact truthy_numbers_default. Qed.
 Print Assumptions C06_truthy_numbers_default.
 
@@ -48,38 +49,25 @@ Theorem C06_truthy_numbers_include_zero :
 Proof. exact truthy_numbers_include_zero. Qed.
 Print Assumptions C06_truthy_numbers_include_zero.
 
-(* REFUTATION of "everything except zero is true" (finding F5): the non-zero
-   subnormal double 1e-320 (bits 2024) is falsy, because the code tests
-   f64::is_normal *)
-Theorem C06_refuted_subnormal : exists b,
-  num_wf (Float b) = true /\ f_is_zero b = false /\ fst (f_dyadic b) <> 0%Z /\
-  is_truthy false (JNum (Float b)) = false.
-Proof. exact refuted_subnormal. Qed.
-Print Assumptions C06_refuted_subnormal.
+(* finding F5, FIXED in /repo ("fix: treat non-zero subnormal numbers as truthy"): the former
+   witness of the defect, the non-zero subnormal double 1e-320 (bits 2024), is truthy *)
+Theorem C06_subnormal_truthy :
+  num_wf (Float 2024) = true /\ f_is_zero 2024 = false /\ f_exp 2024 = 0 /\
+  is_truthy false (JNum (Float 2024)) = true.
+Proof. exact subnormal_truthy. Qed.
+Print Assumptions C06_subnormal_truthy.
 
-(* the strongest true variant: for a well-formed double that is not subnormal
-   (exponent field non-zero, or a zero), truthy iff the value is non-zero *)
-Theorem C06_truthy_float_nonsubnormal : forall b,
+(* for EVERY well-formed double (normal, subnormal, zero) truthy iff the value is non-zero *)
+Theorem C06_truthy_float_value : forall b,
   num_wf (Float b) = true ->
-  (f_exp b <> 0 \/ f_man b = 0) ->
   is_truthy false (JNum (Float b)) = negb (f_is_zero b) /\
   (is_truthy false (JNum (Float b)) = true <-> fst (f_dyadic b) <> 0%Z).
-Proof. exact truthy_float_nonsubnormal. Qed.
-Print Assumptions C06_truthy_float_nonsubnormal.
+Proof. exact truthy_float_value. Qed.
+Print Assumptions C06_truthy_float_value.
 
-(* a well-formed double is falsy exactly when its exponent field is 0 (zeros
-   and subnormals) *)
-Theorem C06_truthy_float_false_iff : forall b,
-  num_wf (Float b) = true ->
-  (is_truthy false (JNum (Float b)) = false <-> f_exp b = 0).
-Proof. exact truthy_float_false_iff. Qed.
-Print Assumptions C06_truthy_float_false_iff.
-
-(* all number representations at once: apart from subnormal doubles, truthy iff
-   the exact value mant * 2^exp (dyadic) is non-zero *)
+(* all number representations at once: truthy iff the exact value mant * 2^exp is non-zero *)
 Theorem C06_truthy_number_value : forall x,
   num_wf x = true ->
-  (forall b, x = Float b -> f_exp b <> 0 \/ f_man b = 0) ->
   (is_truthy false (JNum x) = true <-> fst (dyadic x) <> 0%Z).
 Proof. exact truthy_number_value. Qed.
 Print Assumptions C06_truthy_number_value.
